@@ -614,6 +614,38 @@ def run(ctx) -> list[Inst]:
                                   msg='' if o == 'file' else f"origin of '{stmt_text(n.args[0], 40)}' not recognised",
                                   file=rel, line=n.lineno, props=props, nontrivial=(o == 'file')))
 
+    # (a12) per-file fields of the compiler (those compile() assigns on every call: current_file ...) are re-pointed by
+    # the nested compile() of an include and not restored: a read of such a field in visitMal AFTER an include was
+    # compiled sees the included file's value (what the visitor needs is taken in its __init__, before any include)
+    perfile = set()
+    sn_ = f.self_name or 'self'
+    for n in own_nodes(f.node):
+        if isinstance(n, ast.Assign) and isinstance(n.targets[0], ast.Attribute) and isinstance(n.targets[0].value, ast.Name) \
+                and n.targets[0].value.id == sn_:
+            nd = cfg.node_of(n)
+            guarded = any(g.kind == 'if' and f'{sn_}.{n.targets[0].attr}' in stmt_text(g.ast.test) and cfg.dominates(g, nd)
+                          for g in cfg.nodes) if nd is not None else True
+            if not guarded:
+                perfile.add(n.targets[0].attr)
+    vcfg = ctx.cfg(vm)
+    inc_nodes = [vcfg.owner(c) for c in inc]
+    inc_nodes = [x for x in inc_nodes if x is not None]
+    if perfile and inc_nodes:
+        after = set()
+        for c in inc_nodes:
+            after |= set(vcfg.reachable_from(c, avoiding=set()))
+        for n in own_nodes(vm.node):
+            if isinstance(n, ast.Attribute) and isinstance(n.ctx, ast.Load) and n.attr in perfile \
+                    and isinstance(n.value, ast.Attribute) and n.value.attr == 'compiler':
+                o = vcfg.owner(n)
+                if o is not None and o.idx in after:
+                    insts.append(Inst(
+                        RULE, vm.short, f'(a) per-file compiler state is not read after an include was compiled', 'violation',
+                        msg=(f"'{stmt_text(n)}' is read where an include may already have been compiled: compile() sets "
+                             f"{n.attr} for the included file and never restores it, so the including file is taken for "
+                             f"the included one from the first include on"),
+                        file=vm.module.relpath, line=n.lineno, props=props + ('C04',)))
+
     # (a6) nothing in the package swallows exceptions wholesale: a context manager whose __exit__ returns a truthy
     # value suppresses whatever was raised inside the `with` (also the compile error of an included file)
     nexit = 0
